@@ -16,7 +16,7 @@ head = sh("git -C /repo rev-parse HEAD", cwd="/")[1].strip()
 sh("git checkout -q --detach " + head)
 import re as _re
 _all = _re.findall(r"([\w./-]+_test\.go)", open(os.path.join(src, "demo_path.txt")).read())
-_all = [x for x in _all if x not in ("demo_test.go", "A/demo_test.go", "B/demo_test.go")] or _all
+_all = [x for x in _all if x not in ("demo_test.go", "A/demo_test.go", "B/demo_test.go") and "mutout" not in x and not x.startswith("/")] or _all
 demo_path = sorted(_all, key=len)[-1].strip().lstrip("./")
 def place_demo():
     dst = os.path.join(wt, demo_path)
